@@ -357,6 +357,16 @@ class CallMixin:
 
     def b_list(self, node, st):
         (a,) = node.args
+        if isinstance(a, ast.Call) and isinstance(a.func, ast.Name) and a.func.id == "range" and "range" not in st.env and len(a.args) == 1:
+            # list(range(n)) = [0, 1, ..., n-1]
+            nv = self.coerce(self.eval(a.args[0], st), TInt, node).t
+            n = z3.If(nv < 0, 0, nv)
+            ty = TList(TInt)
+            R = z3.Const(fresh_name("rangelist"), sort_of(ty))
+            j = z3.Int(fresh_name("j"))
+            self.fact(st, l_len(R) == n)
+            self.fact(st, forall([j], z3.Implies(z3.And(0 <= j, j < n), l_at(R, j) == j), patterns=[l_at(R, j)]))
+            return Val(ty, R)
         v = self.eval(a, st)
         if isinstance(v.ty, TList):
             return v
